@@ -715,6 +715,7 @@ func (c *client) findRegion(ctx context.Context, table, key []byte) (hrpc.Region
 			// the same or younger regions are already in cache, retry looking up in cache
 			return nil, nil
 		}
+		vhook("findRegion.cached", c, reg)
 
 		// otherwise, new region in cache, delete overlaps from client's cache
 		for _, r := range overlaps {
